@@ -23,10 +23,45 @@ import logging
 from harness.core import Failure, Prop
 
 POOL = ['p0', 'p1', 'p2', 'p3', 'p4', 'p5', 'p10', 'p1.x', 'a-b', '_t', 'Q', 'p01']
-FUNCS = {'ADD': (2, 4), 'MUL': (2, 3), 'IF': (3, 3), 'MIN': (2, 3), 'MAX': (2, 3), 'NOT': (1, 1), 'ABS': (1, 1),
-         'EQ': (2, 2), 'AND': (2, 3), 'OR': (2, 3), 'SUB': (2, 2), 'DELAY': (2, 2), 'HYST': (3, 3),
-         'AVAILABLE': (1, 1), 'DEFAULT': (2, 2)}
-FNAMES = sorted(FUNCS)
+# functions the corpus and the chain / ring scenarios name explicitly (asserted against the live registry)
+CORE_FUNCS = ['ADD', 'MUL', 'IF', 'MIN', 'NOT', 'ABS', 'SUB']
+_FUNC_TABLE = None
+
+
+def function_table():
+    """{NAME: (min args, max args, ['r' | 'x' per declared ARG_KINDS position])} for EVERY enabled function of the live
+    registry (time processing, date, aggregation, … included): the generator draws from all of them, so that a function
+    whose dependency reporting differs from its syntactic arguments is exercised. A function is left out only when it
+    is disabled in this configuration (HISTORY without a samples-capable persistence driver) or cannot be called with
+    literal arguments."""
+    global _FUNC_TABLE
+    if _FUNC_TABLE is None:
+        from qtoggleserver.core import main as _m  # noqa: F401  (import order matters)
+        from qtoggleserver.core import expressions as ce
+        from qtoggleserver.core.expressions.functions import FUNCTIONS
+        table = {}
+        for name, cls in sorted(FUNCTIONS.items()):
+            try:
+                enabled = cls.ENABLED() if callable(cls.ENABLED) else cls.ENABLED
+            except Exception:
+                enabled = False
+            if not enabled:
+                continue
+            lo = cls.MIN_ARGS or 0
+            hi = cls.MAX_ARGS if cls.MAX_ARGS is not None else lo + 2
+            kinds = ['r' if k is ce.PortRef else 'x' for k in (cls.ARG_KINDS or [])]
+            probe = ['c', name, [['r', 'p0'] if i < len(kinds) and kinds[i] == 'r' else ['l', '1'] for i in range(lo)]]
+            try:
+                ce.parse('p0', render(probe), ce.ROLE_VALUE)
+            except Exception:
+                continue
+            table[name] = (lo, max(lo, hi), kinds)
+        for name in CORE_FUNCS:
+            assert name in table, f'function {name} missing from the live registry'
+        _FUNC_TABLE = table
+    return _FUNC_TABLE
+
+
 LITS = ['0', '1', '2.5', '-3', 'true', 'false', '100']
 # texts the real grammar refuses whatever `{r}` (a `$id` reference) is
 BAD = ['ADD({r}, 1', 'NOSUCHFN({r}, 1)', 'ADD({r})', 'ADD({r},, 1)', 'ADD({r}, 1))', '{r}!', 'IF({r}, 1)',
@@ -221,10 +256,7 @@ class C04(Prop):
         self.core_main = core_main
         self.core_ports, self.core_vports, self.core_api = core_ports, core_vports, core_api
         self.ce, self.api_ports = core_expressions, api_ports
-        for name, (lo, hi) in FUNCS.items():
-            cls = FUNCTIONS.get(name)
-            assert cls is not None, f'function {name} missing from the live registry'
-            assert (cls.MIN_ARGS or 0) <= lo and (cls.MAX_ARGS is None or hi <= cls.MAX_ARGS), name
+        self.funcs = function_table()
         self.loop = asyncio.new_event_loop()
         asyncio.set_event_loop(self.loop)
         self.handler = FakeHandler(core_api.ACCESS_LEVEL_ADMIN)
@@ -291,7 +323,10 @@ class C04(Prop):
         maxops = 40 if tier == 'quick' else 90
         nops = rng.randint(6, maxops)
         ids = rng.sample(POOL, rng.choice([2, 3, 4, 5, 6, 7, 8, 9, 10, 10]))
+        funcs = function_table()
+        fnames = sorted(funcs)
         live, graph, trees = [], {}, {}       # generator's own shadow of the hub, only used to steer the choices
+        stash = {}                            # absent ports with a persisted record: id -> tree or None
         ops = []
 
         def sh_reaches(src, t):
@@ -318,10 +353,22 @@ class C04(Prop):
         def tree(target, d):
             if d == 0:
                 return leaf(target)
-            name = rng.choice(FNAMES)
-            lo, hi = FUNCS[name]
-            return ['c', name, [tree(target, d - 1) if rng.random() < 0.5 else leaf(target)
-                                for _ in range(rng.randint(lo, hi))]]
+            name = rng.choice(fnames)
+            lo, hi, kinds = funcs[name]
+            n = rng.randint(lo, min(hi, lo + 2))
+            if n == 0 and rng.random() < 0.7:       # zero-argument functions carry no reference: mostly re-draw
+                name = rng.choice(fnames)
+                lo, hi, kinds = funcs[name]
+                n = rng.randint(lo, min(hi, lo + 2))
+            args = []
+            for j in range(n):
+                if j < len(kinds) and kinds[j] == 'r':
+                    args.append(['r', rng.choice(live or POOL)])
+                elif rng.random() < (0.5 if n <= 3 else 0.2):
+                    args.append(tree(target, d - 1))
+                else:
+                    args.append(leaf(target))
+            return ['c', name, args]
 
         def candidate(target):
             r = rng.random()
